@@ -118,7 +118,7 @@ def sym_partition(args):
     sc = fork.make_scheme(B, T)
     ws = spec.level_vectors(n)
     wt = {w: ds.score_term(w, B, T) for w in ws}
-    ex = fork.Explorer(fork.valid_scheme(B, T) + ds.constraints(), max_paths=int(1e5), timeout_ms=120000)
+    ex = fork.Explorer(fork.valid_scheme(B, T) + ds.constraints(), max_paths=int(1e5), timeout_ms=300000)
 
     def pay(mdl, what, cls, groups):
         lvs = ds.levels_from(mdl)
@@ -180,7 +180,7 @@ def run(run):
     items += sweep.history_items(run, ["Copeland"], [chk_partition], 40 if run.thorough else 12)
     part_bounds = run.bounds.pop("sweep (per configuration: shapes n, m; datasets explored / all)")
     run.pmap("partition", sweep.run_item, sweep.order_items(items), chunksize=2)
-    symb = [(2, 2), (3, 1), (3, 2), (2, 3)] + ([(3, 3), (4, 1)] if run.thorough else [])
+    symb = [(2, 2), (3, 1), (3, 2), (2, 3)] + ([(4, 1), (2, 4)] if run.thorough else [])
     run.bounds["partition on symbolic datasets [S over datasets and schemes] (n, m)"] = symb
     run.pmap("sym_partition", sym_partition, symb)
     items2 = sweep.make_items(run, CFGS, [chk_parcons, "wellformed"], flags=(True,), light=alg_light, heavy=alg_heavy,
